@@ -68,8 +68,11 @@ SubStateGuards(post, st) ==
     { G("DRIFT", st.backlog = post.queue),
       G("DRIFT", LeaseSetOfLog(st) = LeaseSetOfModel(post)),
       G("DRIFT", st.deleted = (post.st # "live")),
-      \* the expiry schedule and the delivery map describe the same set (C02's anchor)
-      G("C02", ExpSetOfLog(st) = {<<x[1], x[3]>> : x \in LeaseSetOfLog(st)}),
+      \* the expiry schedule and the delivery map describe the same set (C02's anchor):
+      \* a schedule entry without a delivery resurrects an acknowledged message; a delivery
+      \* without a schedule entry is never redelivered
+      G("C02", ExpSetOfLog(st) \subseteq {<<x[1], x[3]>> : x \in LeaseSetOfLog(st)}),
+      G("C01,C04,C05", {<<x[1], x[3]>> : x \in LeaseSetOfLog(st)} \subseteq ExpSetOfLog(st)),
       G("C01", s.st = "live" => \A m \in s.posted : m \in SeqSet(s.queue) \/ m \in LeasedMsgs(s) \/ m \in s.acked),
       G("C01", SeqSet(s.queue) \cup LeasedMsgs(s) \subseteq s.posted),
       G("C02", s.acked \cap (SeqSet(s.queue) \cup LeasedMsgs(s)) = {}),
@@ -329,6 +332,10 @@ EvGuards(e) ==
       [] e.k = "t.list" -> TopicList_G(e.ti, e.skip, e.size, e.out, e.next)
       [] e.k = "s.post" ->
             SubPost_G(e.si, e.ids) \cup
+            (IF SiKnown(e) /\ S[e.si].st = "live"
+             THEN { G("C08", SelectSeq(e.st.backlog, LAMBDA m : m \notin S[e.si].seen)
+                               = SelectSeq(S[e.si].queue, LAMBDA m : m \notin S[e.si].seen) \o e.ids) }
+             ELSE {}) \cup
             (IF SiKnown(e) /\ (e.ids = <<>> \/ S[e.si].inbox # <<>>)
              THEN SubStateGuards(IF e.ids = <<>> THEN S[e.si] ELSE SubAfterPost(S[e.si], e.ids), e.st) ELSE {})
       [] e.k = "s.pull" ->
